@@ -358,6 +358,8 @@ func c22(p *core.Program, r *core.Report) {
 	c22JobSlotFreed(p, r)
 	r.Rule("R10", "RESIZING is sticky: determineClusterState returns ClusterStateResizing on every path on which cluster.state was found equal to ClusterStateResizing")
 	c22ResizingIsSticky(p, r)
+	r.Rule("R11", "no blocking send under the cluster lock: a send into cluster.joiningLeavingNodes from a function that runs with cluster.mu held is non-blocking (select with default)")
+	c22NoBlockingSendUnderLock(p, r)
 	la := newLockAnalysis(p, lockSpec{pkgRel: "", typ: "cluster", mutex: "mu", guarded: set("jobs", "currentJob"),
 		setup: map[string]string{"newCluster": "constructor"}})
 	if la != nil {
